@@ -62,4 +62,9 @@ def splitCompoundLoop : Nat → Str → Char → List Str → Option (List Str)
 
 def splitCompound (s : Str) : Option (List Str) := splitCompoundLoop (s.length + 1) s ' ' []
 
+/-- `scalable(units_a, units_b)` on two lists of unit strings: same length and pairwise scalable -/
+def scalableList (as bs : List Str) : Bool :=
+  if as.length != bs.length then false
+  else (as.zip bs).all fun ab => scalable ab.1 ab.2
+
 end Nix.Units.Compound
